@@ -70,7 +70,7 @@ Qed.
 (* toInt is the big-endian value of the first n bytes (n <= 8: no uint64 wrap) *)
 Theorem toInt_be_val : forall x k, (k <= 8)%nat -> (k <= length x)%nat -> wfb x -> toInt x k = be_val (firstn k x).
 Proof.
-  intros x k H8 Hk Hw. unfold toInt. rewrite toInt_loop_val; auto; [lia|].
+  intros x k H8 Hk Hw. unfold toInt. rewrite (toInt_loop_val k x 0 Hk Hw); [lia|].
   assert (256 ^ N.of_nat k <= 256 ^ 8) by (apply N.pow_le_mono_r; lia).
   change (256 ^ 8) with (2 ^ 64) in H. assert (0 < 256 ^ N.of_nat k) by (apply N.neq_0_lt_0, N.pow_nonzero; lia). lia.
 Qed.
@@ -99,7 +99,7 @@ Proof.
   intros H. unfold u32. change 4294967296 with (pw 32).
   replace 32%nat with (k + (32 - k))%nat by lia. rewrite pw_add.
   pose proof (pw_pos k). pose proof (pw_pos (32 - k)).
-  rewrite N.mod_mul_r by lia. rewrite N.add_comm, N.mul_comm. apply N.mod_add. lia.
+  rewrite N.mod_mul_r by lia. rewrite (N.mul_comm (pw k)), N.mod_add by lia. apply N.mod_mod. lia.
 Qed.
 
 (* (t*256 + c) mod 2^(s+8) = (t mod 2^s)*256 + c *)
@@ -173,9 +173,10 @@ Proof.
     rewrite E. subst x. apply wfb_app in Hw. destruct Hw as [Hwc Hwx'].
     rewrite app_length in *.
     set (s := (bits' - b)%nat). assert (Es : bits' = (s + b)%nat) by (unfold s; lia).
+    assert (Hs7 : (s <= 7)%nat) by (unfold s; lia). clearbody s.
     unfold digits_val. cbn [fold_left]. rewrite digits_fold. fold (digits_val b).
     rewrite base2b_loop_length.
-    rewrite IH by (auto; unfold s; lia).
+    rewrite IH by (auto; clear - Hx Eb Es Hs7; cbn [Nat.mul] in *; lia).
     rewrite N.shiftr_div_pow2, N.land_ones. fold (pw s). fold (pw b).
     destruct (digit_split total' s b) as [D1 D2]. rewrite <- Es in D1, D2. rewrite D1, D2.
     set (r' := total' mod pw bits') in *.
@@ -192,8 +193,11 @@ Proof.
     { unfold W''. rewrite pw_add, <- pw_256. fold L. rewrite Er at 1. lia. }
     rewrite HW.
     set (S' := (s + 8 * length x' - out * b)%nat).
-    replace (bits + 8 * (length c + length x') - S out * b)%nat with S' by (unfold S'; lia).
-    replace (s + 8 * length x')%nat with (out * b + S')%nat by (unfold S'; lia).
+    assert (N1 : (bits + 8 * (length c + length x') - S out * b = S')%nat).
+    { unfold S'. clear - Eb Es Hx. cbn [Nat.mul] in *. lia. }
+    assert (N2 : (s + 8 * length x' = out * b + S')%nat).
+    { unfold S'. clear - Eb Es Hx. cbn [Nat.mul] in *. lia. }
+    rewrite N1, N2.
     rewrite pw_add. pose proof (pw_pos S').
     rewrite N.mul_assoc, N.div_add_l by lia.
     replace (0 * pw b + r' / pw s) with (r' / pw s) by lia.
